@@ -134,7 +134,8 @@ type World struct {
 	Batches, BatchesGE2, BatchesStale int
 	ByPath                             map[string]int
 	Shape                              []string
-	LostCheck                          bool // enable the poll(2) lost-completion oracle
+	NextOnDone                         func(op *Op) // installed on the next operation started (before the library is called)
+	LostCheck                          bool         // enable the poll(2) lost-completion oracle
 	Keep                               []any
 	readyBefore                        int
 }
@@ -422,6 +423,7 @@ func (w *World) NewObj(k Kind, small bool) (*Obj, error) {
 
 func (w *World) newOp(o *Obj, kind string, dir int, all bool, beh Behaviour, target *Obj, forced bool) *Op {
 	op := &Op{ID: len(w.Ops), O: o, Kind: kind, Dir: dir, All: all, Beh: beh, Target: target, Forced: forced}
+	op.OnDone, w.NextOnDone = w.NextOnDone, nil
 	w.Ops = append(w.Ops, op)
 	if dir == 0 {
 		o.Rd = op
@@ -917,3 +919,15 @@ func (w *World) CloseTimers() {
 		}
 	}
 }
+
+// EnterCB / LeaveCB let a check account callbacks of operations it starts itself (e.g. on a multicast peer)
+// in the same nesting counter.
+func (w *World) EnterCB() {
+	w.Depth++
+	if w.Depth > w.MaxDepth {
+		w.MaxDepth = w.Depth
+	}
+	w.HandlersInPoll++
+}
+
+func (w *World) LeaveCB() { w.Depth-- }
